@@ -93,7 +93,7 @@ Print Assumptions C08_stop_delivered_or_durable_partial.
    the guard holds, the Stop is dropped twice, delivered on the third transmission, and the Final
    observation has something to check (one ended session) *)
 Definition C08_ex_ops : list op :=
-  [Start 1 (1, 2, 3) [] 0; InterimTick 4294967296 7 [(1, 3)] [1] 0; Stop 1 1 18446744073709551615 4294967295 [(1, 2)] 0;
+  [Start 1 (1, 2, 3) [] 0; InterimTick 4294967296 7 [] [(1, 3)] [1] 0; Stop 1 1 18446744073709551615 4294967295 [] [(1, 2)] 0;
    ProcessQueued [] 0; ProcessQueued [(1, 2)] 0; RetryTick [] [0] 0; Final].
 Example C08_partial_guard_satisfiable :
   (crash_free C08_ex_ops = true) /\
